@@ -281,7 +281,8 @@ func affine(v, i ssa.Value, depth int) (a, b int64, ok bool) {
 	if depth > 6 {
 		return 0, 0, false
 	}
-	if v == i {
+	v = eng.StripConv(v)
+	if v == i || eng.SameValue(v, i) {
 		return 1, 0, true
 	}
 	if k, isC := eng.ConstInt(v); isC {
@@ -722,24 +723,18 @@ func c06R5(c *core.Ctx) {
 		c.Check(p48, rule, fnName(f)+":[4:8]=inverted seconds", f.Pos(), "bytes [4:8] hold MaxUint32 - seconds (newest first)", "bytes [4:8] are not written as MaxUint32 - seconds")
 	}
 	if f := fn(c, rule, "internal/message", "ID", "HasPrefix"); f != nil {
-		okP := false
-		eng.Instrs(f, func(in ssa.Instruction) {
-			bo, ok := in.(*ssa.BinOp)
-			if !ok || bo.Op != token.EQL {
-				return
+		// result semantics, independent of how the comparison is spelled: HasPrefix may
+		// return true only if Uint32(id[0:4]) == ssid[0]^ssid[1]
+		prefixEq := eng.EqPred("Uint32(id[0:4]) == ssid[0]^ssid[1]", true, func(x, y ssa.Value) bool {
+			call, ok := x.(*ssa.Call)
+			if !ok || eng.FuncID(eng.CalleeObj(&call.Call)) != idBEUint32 {
+				return false
 			}
-			for _, pr := range [][2]ssa.Value{{bo.X, bo.Y}, {bo.Y, bo.X}} {
-				call, ok := pr[0].(*ssa.Call)
-				if !ok || eng.FuncID(eng.CalleeObj(&call.Call)) != idBEUint32 {
-					continue
-				}
-				lo, hi, ok := sliceRange(eng.CallArgs(&call.Call)[1])
-				if ok && lo == 0 && hi == 4 && isXor01(pr[1], f.Params[1]) {
-					okP = true
-				}
-			}
+			lo, hi, ok := sliceRange(eng.CallArgs(&call.Call)[1])
+			return ok && lo == 0 && hi == 4 && isXor01(y, f.Params[1])
 		})
-		c.Check(okP, rule, fnName(f)+":prefix compare", f.Pos(), "Uint32(id[0:4]) == ssid[0]^ssid[1]", "HasPrefix does not compare id[0:4] with ssid[0]^ssid[1]")
+		okP, bad := eng.TrueImplies(f, 0, prefixEq)
+		c.Check(okP && eng.HasLicensingEdgeOrValue(f, prefixEq), rule, fnName(f)+":prefix compare", f.Pos(), "HasPrefix is true only if Uint32(id[0:4]) == ssid[0]^ssid[1]", fmt.Sprintf("HasPrefix can return true without id[0:4] being equal to ssid[0]^ssid[1]: %v", bad))
 	}
 	for _, name := range []string{"Time", "SetTime"} {
 		f := fn(c, rule, "internal/message", "ID", name)
@@ -881,27 +876,27 @@ func c06R7(c *core.Ctx) {
 	}
 	if f := fn(c, rule, "internal/provider/storage", "", "window"); f != nil {
 		maxT, _ := constOf(c, rule, "internal/security", "MaxTime")
-		ok := false
-		eng.Instrs(f, func(in ssa.Instruction) {
-			ret, isRet := in.(*ssa.Return)
-			if !isRet || len(ret.Results) != 2 {
-				return
+		// every way the upper bound is selected: MaxTime only behind until.Unix()==0, the
+		// caller's bound only behind until.Unix()!=0
+		isUntil := func(x ssa.Value) bool {
+			return isCallOn(x, "time.Time.Unix", func(r ssa.Value) bool { return denotesParam(f, r, f.Params[1], 0) })
+		}
+		zero := eng.ZeroPred("until==0", false, isUntil)
+		nonzero := eng.NonZeroPred("until!=0", false, isUntil)
+		nMax, nOwn := 0, 0
+		ok := true
+		for _, site := range resultSites(f, 1) {
+			if k, isC := eng.ConstInt(site.Val); isC && k == maxT {
+				nMax++
+				ok = ok && site.Guarded(zero)
+			} else if isUntil(eng.StripConv(site.Val)) {
+				nOwn++
+				ok = ok && site.Guarded(nonzero)
+			} else {
+				ok = false
 			}
-			if phi, isPhi := ret.Results[1].(*ssa.Phi); isPhi {
-				for i, e := range phi.Edges {
-					if k, isC := eng.ConstInt(e); isC && k == maxT {
-						pb := phi.Block().Preds[i]
-						p := eng.EqPred("until==0", true, func(x, y ssa.Value) bool {
-							k, isC := eng.ConstInt(y)
-							return isC && k == 0 && isCallOn(x, "time.Time.Unix", func(r ssa.Value) bool { return denotesParam(f, r, f.Params[1], 0) })
-						})
-						if g := eng.Guarded(pb.Instrs[len(pb.Instrs)-1], p); g.Guarded && g.Edges > 0 {
-							ok = true
-						}
-					}
-				}
-			}
-		})
+		}
+		ok = ok && nMax > 0 && nOwn > 0
 		c.Check(ok, rule, fnName(f)+":open end", f.Pos(), "an unspecified `until` means MaxTime", "window() does not map a zero `until` to MaxTime")
 	}
 }
